@@ -246,6 +246,11 @@ func compareDecls(impl, ref []byte) (kind, detail string) {
 type finding struct {
 	Sig string
 	Msg string
+	// filled by the explorer
+	Place       string
+	Mode        string
+	Observed    string
+	ObservedErr string
 }
 
 // inlineRef is the generated reference for one (graph, assignment); only for acyclic file graphs.
@@ -274,35 +279,35 @@ func judge(s *spec, e *expectation, mode string, r result, ref *inlineRef, goPkg
 	}
 	switch r.class() {
 	case "no-termination":
-		return []finding{{fmt.Sprintf("C18|termination|no-result-within-%ds|%s|%s", int(watchdog.Seconds()), shape, mode),
-			fmt.Sprintf("Generate did not return within %v", watchdog)}}
+		return []finding{{Sig: fmt.Sprintf("C18|termination|no-result-within-%ds|%s|%s", int(watchdog.Seconds()), shape, mode),
+			Msg: fmt.Sprintf("Generate did not return within %v", watchdog)}}
 	case "panic":
-		return []finding{{fmt.Sprintf("C18|termination|panic|%s|%s", shape, mode), "Generate panicked instead of returning a result or an error: " + r.Panic}}
+		return []finding{{Sig: fmt.Sprintf("C18|termination|panic|%s|%s", shape, mode), Msg: "Generate panicked instead of returning a result or an error: " + r.Panic}}
 	}
 	if mode == modeSeparate {
 		switch {
 		case e.MissingPkg:
 			if r.Err == nil {
-				return []finding{{"C18|separate|import-without-go_package-accepted|" + shape,
-					"separate mode returned a result although an imported file has no go_package const"}}
+				return []finding{{Sig: "C18|separate|import-without-go_package-accepted|" + shape,
+					Msg: "separate mode returned a result although an imported file has no go_package const"}}
 			}
 		case e.PkgCyclic:
 			if r.Err == nil {
-				return []finding{{"C18|cycle-verdict|missed|" + shape + "|separate",
-					"the go_package graph reachable from the root is cyclic but Generate returned a result without error"}}
+				return []finding{{Sig: "C18|cycle-verdict|missed|" + shape + "|separate",
+					Msg: "the go_package graph reachable from the root is cyclic but Generate returned a result without error"}}
 			}
 			if !mentionsCycle(r.Err) {
-				return []finding{{"C18|cycle-verdict|missed-other-error|" + shape + "|separate",
-					"the go_package graph reachable from the root is cyclic but the error does not report a cycle: " + r.errText()}}
+				return []finding{{Sig: "C18|cycle-verdict|missed-other-error|" + shape + "|separate",
+					Msg: "the go_package graph reachable from the root is cyclic but the error does not report a cycle: " + r.errText()}}
 			}
 		default:
 			if mentionsCycle(r.Err) {
-				return []finding{{"C18|cycle-verdict|spurious|" + shape + "|separate",
-					"the go_package graph reachable from the root is acyclic but an import cycle was reported: " + r.errText()}}
+				return []finding{{Sig: "C18|cycle-verdict|spurious|" + shape + "|separate",
+					Msg: "the go_package graph reachable from the root is acyclic but an import cycle was reported: " + r.errText()}}
 			}
 			if r.Err != nil {
-				return []finding{{"C18|separate|error-on-acyclic|" + shape,
-					"acyclic go_package graph, every imported file has a go_package, all type names unique, yet Generate failed: " + r.errText()}}
+				return []finding{{Sig: "C18|separate|error-on-acyclic|" + shape,
+					Msg: "acyclic go_package graph, every imported file has a go_package, all type names unique, yet Generate failed: " + r.errText()}}
 			}
 		}
 		return nil
@@ -313,14 +318,14 @@ func judge(s *spec, e *expectation, mode string, r result, ref *inlineRef, goPkg
 	}
 	if r.Err != nil {
 		if e.PkgFiles >= 2 && goPkgCounterfactual != nil && goPkgCounterfactual() {
-			return []finding{{"C18|combined|error-on-acyclic|go_package-const-of-several-files-collides",
-				"combined mode over an acyclic graph failed only because more than one of the combined files carries a go_package const (the same files without it in the imported files generate exactly the inlined schema): " + r.errText()}}
+			return []finding{{Sig: "C18|combined|error-on-acyclic|go_package-const-of-several-files-collides",
+				Msg: "combined mode over an acyclic graph failed only because more than one of the combined files carries a go_package const (the same files without it in the imported files generate exactly the inlined schema): " + r.errText()}}
 		}
-		return []finding{{"C18|combined|error-on-acyclic|" + shape,
-			"combined mode over an acyclic import graph with unique type names returned an error instead of the inlined schema's output: " + r.errText()}}
+		return []finding{{Sig: "C18|combined|error-on-acyclic|" + shape,
+			Msg: "combined mode over an acyclic import graph with unique type names returned an error instead of the inlined schema's output: " + r.errText()}}
 	}
 	if kind, detail := compareDecls(r.Out, ref.Out); kind != "" {
-		return []finding{{"C18|combined|" + kind + "|" + shape, "combined output is not the output of the inlined schema: " + detail}}
+		return []finding{{Sig: "C18|combined|" + kind + "|" + shape, Msg: "combined output is not the output of the inlined schema: " + detail}}
 	}
 	return nil
 }
